@@ -349,6 +349,18 @@ def gen_small_group(chk):
             add('adaptor_recover %s%s %s %s' % (h32(sigr), h32(ss), (sig[:66] + b32(enc(sp)) + sig[98:]).hex(), pk_obj(Y)), 'small_recover_sp_reencoded', '#0')
     return sg, cases, expect
 
+def build_impl_tables(outdir, name, tabs, flags):
+    """vlib.build_impl restricted to the given op tables (same compiler, same flags, same driver)"""
+    os.makedirs(outdir, exist_ok=True)
+    hd = os.path.join(vlib.ROOT, 'harness'); out = os.path.join(outdir, name)
+    with open(os.path.join(outdir, 'ops_all.h'), 'w') as f:
+        for t in tabs: f.write('#include "ops_%s.h"\n' % t)
+        f.write('#define ALL_OP_TABLES ' + ' '.join('ops_%s,' % t for t in tabs) + '\n')
+    cmd = ['gcc', '-O2', '-w', '-DSECP256K1_ZKP_VERIF=1', '-I' + outdir, '-I' + vlib.REPO, '-I' + vlib.REPO + '/src', '-I' + hd] + list(flags) + ['-o', out, os.path.join(hd, 'impl_driver.c')]
+    rc, o = vlib.sh(cmd, timeout=900)
+    if rc != 0: raise vlib.BuildError('implementation harness does not compile:\n' + o[-3000:])
+    return out
+
 def gen(chk, impl=None):
     g = Gen(chk)
     gen_encrypt(g); gen_nonce(g)
@@ -369,9 +381,18 @@ def run(chk):
         if ri[idx] != want and len(chk.violations) < 20:
             chk.violations.append({'kind': 'correspondence', 'class': 'expectation:' + chk.cases[idx][1], 'case': chk.cases[idx][0], 'impl': ri[idx], 'model': rm[idx], 'expected': want})
     # the repository's own order-13 test group: re-encodings v + 13*j of the scalars of VALID adaptor signatures
-    impl13 = vlib.build_impl(chk.dir, name='impl13', flags=['-DEXHAUSTIVE_TEST_ORDER=13'])
+    # (this harness carries the adaptor op table only: the other modules' tables need not build in the scalar_low configuration)
+    try:
+        impl13 = build_impl_tables(os.path.join(chk.dir, 'sg13'), 'impl13', ['adaptor'], ['-DEXHAUSTIVE_TEST_ORDER=13'])
+    except vlib.BuildError as e:
+        impl13 = None
+        chk.notes.append('SMALL-GROUP STAGE SKIPPED: the harness does not build with -DEXHAUSTIVE_TEST_ORDER=13 (%s)' % str(e).strip().split('\n')[-1][:300])
+        chk.extra['small_group_stage'] = 'skipped: harness build failed'
     sg, cases13, expect13 = gen_small_group(chk)
-    ri13, rm13 = chk.correspond(impl13, model, 'ecdsa_adaptor api, EXHAUSTIVE_TEST_ORDER=13 build vs model on the order-13 group', model_extra=sg.params(), cases=cases13)
+    if impl13:
+        ri13, rm13 = chk.correspond(impl13, model, 'ecdsa_adaptor api, EXHAUSTIVE_TEST_ORDER=13 build vs model on the order-13 group', model_extra=sg.params(), cases=cases13)
+        chk.extra['small_group_stage'] = 'run'
+    else: expect13 = {}
     for idx, want in expect13.items():
         nexp += 1
         if ri13[idx] != want and len(chk.violations) < 20:
